@@ -245,14 +245,19 @@ func (v *valuesVisitor) valueSatisfiesListType(value ast.Value, definitionTypeRe
 			// [] empty list is a valid input for [item!] lists
 			return true
 		}
-		listItemType = v.definition.Types[listItemType].OfType
 	}
 
 	valid := true
 
 	for _, i := range v.operation.ListValues[value.Ref].Refs {
 		listValue := v.operation.Value(i)
-		if !v.valueSatisfiesInputValueDefinitionType(listValue, listItemType) {
+		itemType := listItemType
+		if listValue.Kind != ast.ValueKindNull && v.definition.Types[itemType].TypeKind == ast.TypeKindNonNull {
+			// a non-null item is checked against the nullable item type; a null literal keeps the
+			// Non-Null type and is reported ("[null]" is not a value of [T!])
+			itemType = v.definition.Types[itemType].OfType
+		}
+		if !v.valueSatisfiesInputValueDefinitionType(listValue, itemType) {
 			valid = false
 		}
 	}
